@@ -92,6 +92,87 @@ pub mod verif_transport;
 /// Logging target for the file.
 const LOG_TARGET: &str = "litep2p::websocket";
 
+/// Verification hooks (cfg(feature = "verif") only, adds code only): the production adapter
+/// between a WebSocket stream and the Noise handshake ([`stream::BufferedStream`]) over a
+/// caller-supplied socket, built the way `accept_connection` / `dial_peer` /
+/// `negotiate_connection` build it.
+#[cfg(feature = "verif")]
+pub mod verif_stream {
+    use super::stream::BufferedStream;
+    use std::{
+        pin::Pin,
+        task::{Context, Poll},
+    };
+    use tokio::io::{AsyncRead, AsyncWrite};
+    use tokio_tungstenite::{tungstenite::protocol::Role, MaybeTlsStream, WebSocketStream};
+
+    /// [`BufferedStream`] (futures `AsyncRead` / `AsyncWrite`) over any tokio socket.
+    pub struct VerifWsStream<S: AsyncRead + AsyncWrite + Unpin>(BufferedStream<MaybeTlsStream<S>>);
+
+    impl<S: AsyncRead + AsyncWrite + Unpin> VerifWsStream<S> {
+        /// Listener side: `tokio_tungstenite::accept_async(MaybeTlsStream::Plain(io))` (HTTP
+        /// upgrade request parsed, default WebSocket configuration) as
+        /// `WebSocketConnection::accept_connection` does, wrapped by `BufferedStream::new` as
+        /// `negotiate_connection` does.
+        pub async fn accept(io: S) -> Result<Self, String> {
+            tokio_tungstenite::accept_async(MaybeTlsStream::Plain(io))
+                .await
+                .map(|stream| Self(BufferedStream::new(stream)))
+                .map_err(|error| format!("{error:?}"))
+        }
+
+        /// An established WebSocket stream (no HTTP upgrade) with the default configuration, in
+        /// the server (`true`) or client role.
+        pub async fn established(io: S, server: bool) -> Self {
+            let role = if server { Role::Server } else { Role::Client };
+            Self(BufferedStream::new(
+                WebSocketStream::from_raw_socket(MaybeTlsStream::Plain(io), role, None).await,
+            ))
+        }
+    }
+
+    impl<S: AsyncRead + AsyncWrite + Unpin + Send + 'static> VerifWsStream<S> {
+        /// Dialer side: `tokio_tungstenite::client_async_tls(url, io)` (HTTP upgrade response
+        /// parsed, default configuration) as `WebSocketTransport::dial_peer` does, wrapped by
+        /// `BufferedStream::new`.
+        pub async fn connect(url: &str, io: S) -> Result<Self, String> {
+            let url = url::Url::parse(url).map_err(|error| format!("{error:?}"))?;
+            tokio_tungstenite::client_async_tls(url, io)
+                .await
+                .map(|(stream, _response)| Self(BufferedStream::new(stream)))
+                .map_err(|error| format!("{error:?}"))
+        }
+    }
+
+    impl<S: AsyncRead + AsyncWrite + Unpin> futures::AsyncRead for VerifWsStream<S> {
+        fn poll_read(
+            mut self: Pin<&mut Self>,
+            cx: &mut Context<'_>,
+            buf: &mut [u8],
+        ) -> Poll<std::io::Result<usize>> {
+            Pin::new(&mut self.0).poll_read(cx, buf)
+        }
+    }
+
+    impl<S: AsyncRead + AsyncWrite + Unpin> futures::AsyncWrite for VerifWsStream<S> {
+        fn poll_write(
+            mut self: Pin<&mut Self>,
+            cx: &mut Context<'_>,
+            buf: &[u8],
+        ) -> Poll<std::io::Result<usize>> {
+            Pin::new(&mut self.0).poll_write(cx, buf)
+        }
+
+        fn poll_flush(mut self: Pin<&mut Self>, cx: &mut Context<'_>) -> Poll<std::io::Result<()>> {
+            Pin::new(&mut self.0).poll_flush(cx)
+        }
+
+        fn poll_close(mut self: Pin<&mut Self>, cx: &mut Context<'_>) -> Poll<std::io::Result<()>> {
+            Pin::new(&mut self.0).poll_close(cx)
+        }
+    }
+}
+
 /// Pending inbound connection.
 struct PendingInboundConnection {
     /// Socket address of the remote peer.
